@@ -6,7 +6,7 @@
 
 use std::sync::{Arc, OnceLock};
 use std::time::Instant;
-use mlua::{Lua, Result as LuaResult, MultiValue, Value as LuaValue};
+use mlua::{ChunkMode, Lua, Result as LuaResult, MultiValue, Value as LuaValue};
 use sha1::{Sha1, Digest};
 
 use crate::error::{Result, FerrousError};
@@ -38,7 +38,8 @@ impl LuaEngine {
         self.setup_keys_and_args(&lua, keys, args)?;
         
         let start_time = Instant::now();
-        let result = lua.load(script).eval::<LuaValue>();
+        // Source text only, as in Redis: Lua does not verify a precompiled chunk
+        let result = lua.load(script).set_mode(ChunkMode::Text).eval::<LuaValue>();
         
         match result {
             Ok(value) => self.lua_value_to_resp(value, 0),
@@ -114,7 +115,7 @@ impl LuaEngine {
         
         // Proper syntax validation: Load the chunk to validate compilation
         // This will fail if there are syntax errors, but won't execute the script
-        let chunk = lua.load(script);
+        let chunk = lua.load(script).set_mode(ChunkMode::Text);
         
         // Attempt to create the function to validate syntax
         // This catches compilation errors without executing
@@ -156,6 +157,20 @@ impl LuaEngine {
         for func in &dangerous_functions {
             globals.set(*func, mlua::Nil).map_err(|e| FerrousError::LuaError(e.to_string()))?;
         }
+        
+        // loadstring compiles source text only, as the script itself: a precompiled chunk is
+        // loaded unverified, and the sizes its header announces are allocated as they stand
+        // (2^62 bytes: the allocation fails and the process aborts)
+        let loadstring = lua.create_function(|lua_ctx, (code, name): (mlua::String, Option<String>)| {
+            let chunk = lua_ctx.load(code.as_bytes().to_vec())
+                .set_name(name.unwrap_or_else(|| "=(loadstring)".to_string()))
+                .set_mode(ChunkMode::Text);
+            Ok(match chunk.into_function() {
+                Ok(function) => (Some(function), None),
+                Err(e) => (None, Some(e.to_string())),
+            })
+        }).map_err(|e| FerrousError::LuaError(e.to_string()))?;
+        globals.set("loadstring", loadstring).map_err(|e| FerrousError::LuaError(e.to_string()))?;
         
         // Create Redis API using unified command processing
         let redis_table = lua.create_table().map_err(|e| FerrousError::LuaError(e.to_string()))?;
